@@ -342,6 +342,13 @@ class C20:
                 self.cmp_parse(mr.choice([b"*1\r\n", b"~1\r\n", b"*2\r\n:1\r\n"]) * depth + mr.choice([b":7\r\n", b"", b"$1\r\nx\r\n"]), "nest")
             if i < 3:
                 rep.sample({"parse": hx(d[:80])})
+        # every way of nesting, far beyond what a stack can hold: refused at the limit (cheap), never a crash — a level that
+        # forgets to count (one aggregate type, one position inside a pair) shows only when the nesting goes through it
+        DEEP = 300000
+        for opener in (b"*1\r\n", b"~1\r\n", b">1\r\n", b"%1\r\n+k\r\n", b"%1\r\n", b"|1\r\n+k\r\n", b"|1\r\n", b"*2\r\n:1\r\n", b"~2\r\n:1\r\n",
+                       b"*1\r\n~1\r\n", b"%1\r\n+k\r\n*1\r\n", b"*1\r\n%1\r\n:1\r\n"):
+            for depth in (200, DEEP):
+                self.cmp_parse(opener * depth + b":7\r\n", "deep-nest")
         # streams of frames + garbage in random chunkings
         cr = r.fork("chunks")
         for i in range(500 * scale):
